@@ -155,7 +155,7 @@ def counter_shape(ctx):
 from .pathsum import PathSum, Unsupported as _Unsupported
 
 
-def _timestamp_cases(ctx, prog, ci, fn, ts, val, ACTIVE, LASTV, LASTT, START):
+def _timestamp_cases(ctx, prog, ci, fn, ts, val, ACTIVE, LASTV, LASTT, START, ACT_KEY=None):
     """active x (no observation yet | ts < last | ts == last | ts > last): outcome of register(ts, val) against the specification
          ts < last                  -> refused (raise), nothing written
          not active                 -> no accumulation, start / last timestamp unchanged, last value := val
@@ -171,7 +171,8 @@ def _timestamp_cases(ctx, prog, ci, fn, ts, val, ACTIVE, LASTV, LASTT, START):
     for active in (True, False):
         for rel in ('nan', 'lt', 'eq', 'gt'):
             ncases += 1
-            env = {('bool', f'self.{ACTIVE}'): active,
+            akey, apol = ACT_KEY if ACT_KEY is not None else (('bool', f'self.{ACTIVE}'), True)
+            env = {akey: active == apol,
                    ('bool', f'math.isnan({lt})'): rel == 'nan', ('bool', f'math.isnan({stt})'): rel == 'nan',
                    ('bool', f'math.isnan({ts})'): False, ('bool', f'math.isnan({val})'): False,
                    ('ord', ts, lt): 'un' if rel == 'nan' else rel}
@@ -306,6 +307,16 @@ def timestamp_protocol(ctx):
         e = prog.simple_return('TimestampWeightedTally', m)
         return e.attr if isinstance(e, ast.Attribute) and unparse(e.value) == 'self' else default
     ACTIVE = _getter_field('isactive', '_active')
+    # `isactive()` may also be a test of the field (`return self._end is None`): the case environments then decide that test
+    ACT_EXPR = prog.simple_return('TimestampWeightedTally', 'isactive')
+    ACT_KEY = None                 # (env key, polarity): env[key] = active == polarity
+    if isinstance(ACT_EXPR, ast.Compare) and len(ACT_EXPR.ops) == 1 and isinstance(ACT_EXPR.comparators[0], ast.Constant) and ACT_EXPR.comparators[0].value is None \
+            and is_self_attr(ACT_EXPR.left) and isinstance(ACT_EXPR.ops[0], (ast.Is, ast.IsNot, ast.Eq, ast.NotEq)):
+        ACTIVE = ACT_EXPR.left.attr
+        ACT_KEY = (('isnone', f'self.{ACTIVE}'), isinstance(ACT_EXPR.ops[0], (ast.Is, ast.Eq)))
+    elif isinstance(ACT_EXPR, ast.UnaryOp) and isinstance(ACT_EXPR.op, ast.Not) and is_self_attr(ACT_EXPR.operand):
+        ACTIVE = ACT_EXPR.operand.attr
+        ACT_KEY = (('bool', f'self.{ACTIVE}'), False)
     LASTV = _getter_field('last_value', '_last_value')
     LASTT = '_last_timestamp'
     for i_ in walk_shallow(fn):
@@ -321,7 +332,7 @@ def timestamp_protocol(ctx):
         if isinstance(x_, ast.Call) and unparse(x_.func) == 'math.isnan' and len(x_.args) == 1 and is_self_attr(x_.args[0]) and x_.args[0].attr != LASTT:
             START = x_.args[0].attr
     try:
-        _timestamp_cases(ctx, prog, ci, fn, ts, val, ACTIVE, LASTV, LASTT, START)
+        _timestamp_cases(ctx, prog, ci, fn, ts, val, ACTIVE, LASTV, LASTT, START, ACT_KEY)
     except _Unsupported as e_:
         ctx.note(f'R10.4: path summaries not applicable to register ({e_}); template rule used instead')
         _timestamp_template(ctx, prog, ci, fn, g, ts, val, ACTIVE, LASTV, LASTT)
@@ -330,6 +341,15 @@ def timestamp_protocol(ctx):
     p = eo.args.args[1].arg
     b = body_of(eo)
     ok = len(b) == 2 and unparse(b[0]) == f'self.register({p}, self.{LASTV})' and unparse(b[1]) == f'self.{ACTIVE} = False'
+    if not ok and len(b) == 2 and unparse(b[0]) == f'self.register({p}, self.{LASTV})' and ACT_EXPR is not None and isinstance(b[1], ast.Assign) \
+            and len(b[1].targets) == 1 and is_self_attr(b[1].targets[0], ACTIVE):
+        # the second statement makes isactive() false: its test evaluated with the assigned value (a timestamp accepted by register is a number)
+        class _R(ast.NodeTransformer):
+            def visit_Attribute(self, n):
+                return copy.deepcopy(b[1].value) if is_self_attr(n, ACTIVE) else n
+        import copy
+        t_ = _R().visit(copy.deepcopy(ACT_EXPR))
+        ok = GuardEval(prog, 'TimestampWeightedTally', {('isnone', p): False}).ev(t_) is False
     ctx.ob('R10.4', 'end_observations', ok, sample=f'end_observations: {[short(s) for s in b]}')
     if not ok:
         ctx.finding('R10.4', 'TimestampWeightedTally.end_observations', ci, eo, 'end_observations must be `self.register(t, last_value)` followed by `_active = False`',
@@ -655,9 +675,30 @@ def instance_mutation_sites(prog, cname, name):
                 elif isinstance(x, ast.Call) and unparse(x.func) in HEAPQ_MUTATORS and x.args and isinstance(x.args[0], ast.Attribute) \
                         and x.args[0].attr == name:
                     base = x.args[0].value
+                elif isinstance(x, ast.Attribute) and isinstance(x.ctx, (ast.Store, ast.Del)) and isinstance(x.value, ast.Attribute) and x.value.attr == name:
+                    base = x.value.value              # self.<name>.<field> = ...: the object kept under <name> is changed in place
+                elif isinstance(x, ast.Call) and isinstance(x.func, ast.Attribute) and isinstance(x.func.value, ast.Attribute) and x.func.value.attr == name \
+                        and x.func.attr in _writer_methods(prog):
+                    base = x.func.value.value         # self.<name>.set(...): a method that assigns fields of its object
                 if base is not None and unparse(base) in ('self', 'cls', 'type(self)', 'self.__class__'):
                     muts.append((sub, mname, x))
     return muts
+
+
+def _writer_methods(prog):
+    """names of methods (other than constructors) that assign a field of their own object"""
+    cached = getattr(prog, '_pdsa_writer_methods', None)
+    if cached is None:
+        cached = set()
+        for ci in prog.classes.values():
+            for mname, fn in ci.methods.items():
+                if mname in ('__init__', '__new__'):
+                    continue
+                if any(isinstance(x, ast.Attribute) and isinstance(x.ctx, (ast.Store, ast.Del)) and isinstance(x.value, ast.Name) and x.value.id == 'self'
+                       for x in walk_shallow(fn)):
+                    cached.add(mname)
+        prog._pdsa_writer_methods = cached
+    return cached
 
 
 def shared_class_state(ctx, rule, class_names, consequence):
@@ -673,29 +714,16 @@ def shared_class_state(ctx, rule, class_names, consequence):
             continue
         for (name, value, stmt) in ci.all_assigns:
             mutable = isinstance(value, (ast.Dict, ast.List, ast.Set, ast.DictComp, ast.ListComp, ast.SetComp)) or \
-                (isinstance(value, ast.Call) and unparse(value.func).split('.')[-1] in ('dict', 'list', 'set', 'defaultdict', 'OrderedDict', 'deque', 'Counter'))
+                (isinstance(value, ast.Call) and unparse(value.func).split('.')[-1] in ('dict', 'list', 'set', 'defaultdict', 'OrderedDict', 'deque', 'Counter')) or \
+                (isinstance(value, ast.Call) and isinstance(value.func, ast.Name) and value.func.id in prog.classes)        # an object of a program class
             if not mutable:
                 continue
             n += 1
-            muts = []
+            muts = instance_mutation_sites(prog, cname, name)
             rebinds_in_init = False
             for sub in prog.subclasses(cname, strict=False):
                 sci = prog.classes[sub]
                 for mname, fn in list(sci.methods.items()) + list(sci.setters.items()):
-                    for x in walk_shallow(fn):
-                        base = None
-                        if isinstance(x, ast.Subscript) and isinstance(x.ctx, (ast.Store, ast.Del)) and isinstance(x.value, ast.Attribute) and x.value.attr == name:
-                            base = x.value.value
-                        elif isinstance(x, ast.Call) and isinstance(x.func, ast.Attribute) and x.func.attr in MUTATORS \
-                                and isinstance(x.func.value, ast.Attribute) and x.func.value.attr == name:
-                            base = x.func.value.value
-                        elif isinstance(x, ast.AugAssign) and isinstance(x.target, ast.Attribute) and x.target.attr == name:
-                            base = x.target.value
-                        elif isinstance(x, ast.Call) and unparse(x.func) in HEAPQ_MUTATORS and x.args and isinstance(x.args[0], ast.Attribute) \
-                                and x.args[0].attr == name:
-                            base = x.args[0].value
-                        if base is not None and unparse(base) in ('self', 'cls', 'type(self)', 'self.__class__'):
-                            muts.append((sub, mname, x))
                     if mname == '__init__' and sub == cname:
                         stores = [a for a in body_of(fn) if isinstance(a, (ast.Assign, ast.AnnAssign)) and
                                   any(is_self_attr(t, name) for t in (a.targets if isinstance(a, ast.Assign) else [a.target]))]
